@@ -16,6 +16,7 @@ Operations (JSON-able lists):
   ['db', e]                                      read back every fact predicate with all-variables queries
 """
 import gc
+import sys
 from .terms import tt, canon, resolve, Budget, Unspecified, term_vars, group_clauses
 from .refint import Interp
 from . import impl
@@ -406,10 +407,104 @@ def jn(x):
     return json.loads(json.dumps(x, default=str))
 
 
-def run_history(ops, ref_steps=4000, immediate=False, skip_undecided=False, track_fresh=False):
+class Blocked(Exception):
+    """ThreadedImplWorld: an operation of one engine did not finish until ANOTHER engine's suspended queries were closed"""
+
+
+class Inconclusive(Exception):
+    """ThreadedImplWorld: an operation did not finish within the (very generous) time limit, and closing the other
+    engines' queries did not release it either: nothing is concluded"""
+
+
+class ThreadedImplWorld(ImplWorld):
+    """every engine is used by a thread of its own; the harness owns the schedule: exactly one operation runs at a
+    time (lock step), in the order of the history.  Observations must be those of the single-threaded run."""
+    WAIT = 30.0
+
+    def __init__(self, budget=60000):
+        super().__init__(budget)
+        self.workers = {}
+        self.qeng = {}
+
+    def _worker(self, e):
+        import threading, queue
+        if e not in self.workers:
+            inq, outq = queue.Queue(), queue.Queue()
+
+            def loop():
+                sys.setrecursionlimit(40000)
+                while True:
+                    job = inq.get()
+                    if job is None:
+                        return
+                    try:
+                        outq.put(('ok', job()))
+                    except BaseException as ex:     # noqa  - handed to the caller, which re-raises it
+                        outq.put(('exc', ex))
+            old = threading.stack_size(256 * 1024 * 1024)
+            try:
+                th = threading.Thread(target=loop, daemon=True)
+                th.start()
+            finally:
+                threading.stack_size(old)
+            self.workers[e] = (th, inq, outq)
+        return self.workers[e]
+
+    def _engine_of(self, op):
+        if op[0] in ('step', 'close', 'drop'):
+            return self.qeng.get(op[1])
+        return op[1]
+
+    def do(self, op, keys=()):
+        import queue
+        e = self._engine_of(op)
+        if e is None:
+            return ImplWorld.do(self, op, keys)
+        if op[0] == 'open':
+            self.qeng[op[2]] = e
+        th, inq, outq = self._worker(e)
+        inq.put(lambda: ImplWorld.do(self, op, keys))
+        try:
+            kind, val = outq.get(timeout=self.WAIT)
+        except queue.Empty:
+            # release the queries that OTHER engines hold suspended, each on its own thread
+            released = []
+            for qid, qe in list(self.qeng.items()):
+                if qe != e and qid in self.q:
+                    t2, in2, out2 = self._worker(qe)
+                    in2.put(lambda qid=qid: ImplWorld.op_close(self, qid))
+                    try:
+                        out2.get(timeout=self.WAIT)
+                        released.append((qe, qid))
+                    except queue.Empty:
+                        pass
+            try:
+                kind, val = outq.get(timeout=self.WAIT)
+            except queue.Empty:
+                raise Inconclusive('operation %r of engine %s still running after %.0f s' % (op[0], e, 2 * self.WAIT))
+            raise Blocked('operation %r of engine %s did not finish within %.0f s, and finished as soon as the suspended '
+                          'queries %s of the other engines were closed' % (op[0], e, self.WAIT, released))
+        if kind == 'exc':
+            raise val
+        return val
+
+    def shutdown(self):
+        for th, inq, outq in self.workers.values():
+            inq.put(None)
+
+
+def run_history(ops, ref_steps=4000, immediate=False, skip_undecided=False, track_fresh=False, impl_world=None):
     """returns (n_ops_decided, reference observations, impl observations, failure or None, refworld)"""
     ref = RefWorld(ref_steps, immediate)
-    im = ImplWorld(10 * ref_steps + 500)
+    im = (impl_world or ImplWorld)(10 * ref_steps + 500)
+    try:
+        return _run_history(ops, ref, im, skip_undecided, track_fresh)
+    finally:
+        if hasattr(im, 'shutdown'):
+            im.shutdown()
+
+
+def _run_history(ops, ref, im, skip_undecided, track_fresh):
     im.track_fresh = track_fresh
     robs, iobs = [], []
     for i, op in enumerate(ops):
@@ -425,7 +520,7 @@ def run_history(ops, ref_steps=4000, immediate=False, skip_undecided=False, trac
                 # both sides and go on with the history
                 if op[0] == 'step':
                     ref.op_close(op[1])
-                    im.op_close(op[1])
+                    im.do(['close', op[1]])
                 robs.append('skipped')
                 iobs.append('skipped')
                 continue
@@ -433,6 +528,10 @@ def run_history(ops, ref_steps=4000, immediate=False, skip_undecided=False, trac
         keys = sorted(set(ref.keys.get(op[1], ())) | set(DB_KEYS)) if op[0] == 'db' else ()
         try:
             o = im.do(op, keys)
+        except Blocked as e:
+            return i, robs, iobs, ('blocked-by-suspended-query-of-another-engine', i, op, r, str(e)), ref
+        except Inconclusive:
+            return i, robs, iobs, None, ref
         except impl.ImplWork:
             return i, robs, iobs, None, ref          # too expensive (term copying): the prefix decided so far stands
         except impl.ImplBudget:
